@@ -96,6 +96,20 @@ CLAIMS = {
         "Not modelled: serde/config-crate parsing, the normalisation chain of is_loopback_host (host table vs python classification), "
         "the server's exit status.",
    design="§3 C18"),
+ "C19": dict(
+   engine="ratelimit",
+   technique="Lean 4 proof (conservation law of the token bucket by a transitive relation over any call sequence) + correspondence under a virtual clock",
+   text="Theorems C19_bucket_bound / C19_window_bound (from ANY capped bucket state, any sequence of try_consume calls at monotone "
+        "clock readings admits <= burst + rate*elapsed, over any window), C19_global_all_schedules (the never-refunded, mutex-"
+        "protected global bucket obeys it under every interleaving), checkLimit_tenant_rel (sequential check_limit incl. the "
+        "refund path), C19_refund_restores, C19_no_spurious_refusal; the concurrent per-tenant statement is kept as "
+        "TenantAllSchedulesStatement with the refuting witness C19_refund_window_witness. Tie: the real RateLimiter runs under a "
+        "virtual CLOCK_MONOTONIC (in-binary interposition) on generated call patterns; decisions, clock-read counts and available "
+        "tokens are compared with the exact-arithmetic model; window oracle on the implementation.",
+   note="Exact integer arithmetic in the model vs f64 in the code: a case stops being compared at a decision within 10 nano-tokens "
+        "of the threshold. Concurrency of the tenant bucket (refund window) is not covered by this run. Trusted: Lean kernel, hand "
+        "model validated by correspondence, virtual clock shim.",
+   design="§3 C19"),
 }
 
 NOT_APPLICABLE = {
